@@ -15,6 +15,7 @@
 use aeron_rs::command::control_protocol_events::AeronCommand;
 use aeron_rs::concurrent::atomic_buffer::{AlignedBuffer, AtomicBuffer};
 use aeron_rs::concurrent::ring_buffer::{self as rb, ManyToOneRingBuffer, RingBufferError};
+use std::sync::Arc;
 use vcommon::{catch, fmt_outcome, payload, sparse_words};
 
 mod conc;
@@ -55,7 +56,7 @@ pub fn fmt_msgs(msgs: &[(i32, Vec<u8>)]) -> String {
 pub struct Ring {
     pub mem: AlignedBuffer,
     pub buf: AtomicBuffer,
-    pub ring: ManyToOneRingBuffer,
+    pub ring: Arc<ManyToOneRingBuffer>,
     pub cap: i32,
 }
 
@@ -68,7 +69,7 @@ impl Ring {
         buf.put::<i64>(cap + rb::HEAD_POSITION_OFFSET, p0);
         buf.put::<i64>(cap + rb::HEAD_CACHE_POSITION_OFFSET, hc0);
         buf.put::<i64>(cap + rb::CORRELATION_COUNTER_OFFSET, c0);
-        let ring = ManyToOneRingBuffer::new(buf).expect("capacity");
+        let ring = Arc::new(ManyToOneRingBuffer::new(buf).expect("capacity"));
         Ring { mem, buf, ring, cap }
     }
     pub fn head(&self) -> i64 {
@@ -93,11 +94,13 @@ pub fn do_read(ring: &ManyToOneRingBuffer, limit: i64) -> (String, Vec<(i32, Vec
     (fmt_outcome(r), msgs)
 }
 
-fn case_seq(parts: &[&str]) -> String {
-    let a: Vec<i64> = parts[0..4].iter().map(|p| p.parse::<i64>().expect("int")).collect();
-    let r = Ring::new(a[0] as i32, a[1], a[2], a[3]);
+/// run sequential ops (tokens as in the header comment) on the ring; one observation per op
+pub fn run_ops(r: &Ring, toks: &[&str]) -> String {
     let mut outs: Vec<String> = Vec::new();
-    for tok in &parts[4..] {
+    for tok in toks {
+        if tok.is_empty() {
+            continue;
+        }
         let f: Vec<&str> = tok.split(':').collect();
         let arg = |i: usize| f[i].parse::<i64>().expect("int");
         match f[0] {
@@ -128,6 +131,12 @@ fn case_seq(parts: &[&str]) -> String {
         }
     }
     format!("[{}]", outs.join("; "))
+}
+
+fn case_seq(parts: &[&str]) -> String {
+    let a: Vec<i64> = parts[0..4].iter().map(|p| p.parse::<i64>().expect("int")).collect();
+    let r = Ring::new(a[0] as i32, a[1], a[2], a[3]);
+    run_ops(&r, &parts[4..])
 }
 
 /// integers as Coq prints them inside an application
